@@ -299,7 +299,13 @@ def read_meta(path):
     return meta, stats
 
 
-def compare(impl_path, model_path, vprefixes, max_keep=5):
+def _filter_obs(obs, prefixes):
+    if not prefixes:
+        return obs
+    return [o for o in obs if o.startswith("panic") or o == "bad-op" or any(o.startswith(p + " ") for p in prefixes)]
+
+
+def compare(impl_path, model_path, vprefixes, max_keep=5, obs_prefixes=None):
     """Returns dict(cases, mismatches=[...], violations=[...], hashes=set, samples=[...])."""
     res = dict(cases=0, ops=0, mismatches=[], violations=[], hashes=set(), samples=[], nontrivial=0)
     mi = iter_cases(model_path, False) if model_path else None
@@ -323,7 +329,7 @@ def compare(impl_path, model_path, vprefixes, max_keep=5):
                 midx, _, mobs, _ = next(mi)
             except StopIteration:
                 midx, mobs = None, None
-            if midx != idx or mobs != obs:
+            if midx != idx or mobs is None or _filter_obs(mobs, obs_prefixes) != _filter_obs(obs, obs_prefixes):
                 if len(res["mismatches"]) < max_keep:
                     res["mismatches"].append(dict(case=idx, ops=ops, impl_obs=obs, model_obs=mobs))
                 else:
@@ -474,7 +480,7 @@ def main(argv):
                 if rc != 0:
                     return job, None, "wpmodel rc=%d %s" % (rc, err[-300:])
                 mpath = mp
-            res = compare(ip, mpath, vprefixes)
+            res = compare(ip, mpath, vprefixes, obs_prefixes=fam.get("obs_prefixes"))
             meta, stats = read_meta(ip)
             res["meta"], res["stats"] = meta, stats
             for p in (ip, mp):
@@ -559,9 +565,11 @@ def main(argv):
                 if m:
                     fam = m["family"]
 
+                    opx = next((f.get("obs_prefixes") for f in spec["families"] if f["name"] == fam), None)
+
                     def differs(c):
                         i, mo, _ = run_case_both(fam, c, pid)
-                        return i != mo
+                        return mo is None or _filter_obs(i, opx) != _filter_obs(mo, opx)
                     ops = shrink(fam, m["ops"], differs) if len(m["ops"]) > 1 else m["ops"]
                     iobs, mobs, _ = run_case_both(fam, ops, pid)
                     replay.update(correspondence=dict(family=fam, stream="wpmodel %s vs wp_harness %s" % (fam, fam),
